@@ -6,6 +6,6 @@ FieldTags == {"kw", "digit", "blank", "nonascii", "emptyname", "badmark", "unkno
               "constx", "regex", "example", "examplelength"}
 CheckTags == {"emptydesc", "unknowntype", "emptytype", "u:undeclared", "u:empty", "u:dup", "u:comma", "d:undeclared", "d:notbool",
               "d:syntax"}
-AllDeco == SUBSET {"comments", "blanks"}
+AllDeco == SUBSET {"comments", "blanks", "late"}
 NoDeco == {{}}
 =============================================================================
